@@ -27,7 +27,7 @@
    written from the property text, the fork's package documentation and X.690 - as a table of
    defects - and the laws below are checked on it by TLC; the harness realizes every case as bytes
    + reflect-built Go types and compares the real decoders with the verdict.                      *)
-EXTENDS Naturals, Sequences, FiniteSets, TLC
+EXTENDS Integers, Sequences, FiniteSets, TLC
 
 CONSTANTS
   ShapeNames,      \* the shapes explored by this instance (subset of DOMAIN Shapes)
@@ -258,6 +258,9 @@ DefectTable(d) ==
 ValueOf(d) == IF d \in {"emptyOID", "printableIsLatin1", "printableIsT61", "genTimeFraction", "setOfUnsorted",
                         "rawInnerNonDER"} THEN d ELSE "same"
 
+\* the defect sits in an element of a SET OF: its encoding changes, so the SET OF may no longer be sorted and
+\* upstream's Marshal (which sorts, see setOfUnsorted) need not reproduce the input
+ThroughSetOf(t, p) == \E q \in {SubSeq(p, 1, i) : i \in 0..(Len(p) - 1)} : NodeAt(t, q).k = "setof"
 UnderRawContent(t, p) == \E q \in {SubSeq(p, 1, i) : i \in 0..Len(p)} : "rawcontent" \in NodeAt(t, q).p
 
 Verdict(x) ==
@@ -274,7 +277,7 @@ Verdict(x) ==
        \* Marshal(decoded) = consumed input bytes?  (asserted only where TRUE)
        rt       |-> row.strict = "accept" /\ (der \/ keeps \/ x.defect = "setOfUnsorted"),
        rtMode   |-> md = "accept" /\ (der \/ keeps \/ x.defect = "setOfUnsorted"),
-       rtStd    |-> row.std = "accept" /\ (der \/ (keeps /\ x.defect # "genTimeFraction")),
+       rtStd    |-> row.std = "accept" /\ (x.defect = "none" \/ ((der \/ keeps) /\ ~ThroughSetOf(t, x.path))),
        inEffect |-> InEffect(x) ]
 
 (* ---- laws (checked by TLC on every case) ---------------------------------------------------- *)
